@@ -264,6 +264,18 @@ def EnvIn : List Nat → List Itv → Prop
   | x :: xs, t :: ts => t.mem x ∧ EnvIn xs ts
   | _, _ => False
 
+def EnvIn.dec : (env : List Nat) → (ienv : List Itv) → Decidable (EnvIn env ienv)
+  | [], [] => isTrue trivial
+  | x :: xs, t :: ts =>
+    match (inferInstance : Decidable (t.mem x)), EnvIn.dec xs ts with
+    | isTrue h1, isTrue h2 => isTrue ⟨h1, h2⟩
+    | isFalse h1, _ => isFalse (fun h => h1 h.1)
+    | _, isFalse h2 => isFalse (fun h => h2 h.2)
+  | [], _ :: _ => isFalse (fun h => h)
+  | _ :: _, [] => isFalse (fun h => h)
+
+instance (env : List Nat) (ienv : List Itv) : Decidable (EnvIn env ienv) := EnvIn.dec env ienv
+
 /-- inclusion of interval vectors (used to state fixed post-conditions) -/
 def Itv.le (s t : Itv) : Bool := t.lo ≤ s.lo && s.hi ≤ t.hi && t.tz ≤ s.tz
 
